@@ -506,6 +506,10 @@ func c09ChainToks(addr ssa.Value) []string {
 }
 
 func (t *c09Taint) event(f *ssa.Function, in ssa.Instruction, fields []*types.Var, root ssa.Value, val ssa.Value, tk c09toks, exact bool) {
+	t.eventAt(f, in, nil, fields, root, val, tk, exact)
+}
+
+func (t *c09Taint) eventAt(f *ssa.Function, in ssa.Instruction, addr ssa.Value, fields []*types.Var, root ssa.Value, val ssa.Value, tk c09toks, exact bool) {
 	ev := t.events[in]
 	if ev == nil {
 		ev = &c09Event{Fn: f, Instr: in, Fields: fields, Root: root, Val: val, Prov: c09toks{}}
@@ -514,6 +518,8 @@ func (t *c09Taint) event(f *ssa.Function, in ssa.Instruction, fields []*types.Va
 			ev.Addr = y.Addr
 		case *ssa.MapUpdate:
 			ev.Addr = y.Map
+		default:
+			ev.Addr = addr
 		}
 		ev.Toks = c09ChainToks(ev.Addr)
 		t.events[in] = ev
@@ -577,9 +583,36 @@ func (t *c09Taint) call(f *ssa.Function, ci ssa.CallInstruction, val *ssa.Call) 
 				}
 			}
 		case "copy":
-			if sl, ok := args[1].Type().Underlying().(*types.Slice); ok && c09CanRef(sl.Elem()) && len(t.tok(args[1])) > 0 {
-				t.unknown[ci] = "slice of borrowed references copied into another slice"
+			// element-wise store of the source's elements into the destination's backing array
+			sl, ok := args[1].Type().Underlying().(*types.Slice)
+			tk := t.tok(args[1])
+			if !ok || !c09CanRef(sl.Elem()) || len(tk) == 0 {
+				return
 			}
+			dst := args[0]
+			for {
+				if s2, ok := dst.(*ssa.Slice); ok {
+					dst = s2.X
+					continue
+				}
+				break
+			}
+			switch d := dst.(type) {
+			case *ssa.UnOp:
+				if d.Op == token.MUL {
+					fields, root, exact := c09AddrRoot(d.X)
+					if c09IsLocal(root) {
+						t.add(root, tk)
+					} else {
+						t.eventAt(f, ci, d.X, fields, root, args[1], tk, exact)
+					}
+					return
+				}
+			case *ssa.MakeSlice, *ssa.Alloc:
+				t.add(d, tk)
+				return
+			}
+			t.unknown[ci] = "slice of borrowed references copied into a slice whose home could not be determined"
 		}
 		return
 	}
